@@ -41,9 +41,9 @@ type Program struct {
 	SpecDefs   []*contract.Define
 	specDefAx  []*T
 	specDefSig map[string]*contract.Define
-	defPkg  map[*contract.Define]*types.Package
-	specPkg map[*contract.FuncSpec]*types.Package
-	Init    *InitState
+	defPkg     map[*contract.Define]*types.Package
+	specPkg    map[*contract.FuncSpec]*types.Package
+	Init       *InitState
 
 	ghost     map[string]*term.Sort // "pkg.Type.field"
 	specFuns  map[string]*term.FunSig
@@ -562,6 +562,13 @@ func (p *Program) instrWrites(ins ssa.Instruction) []string {
 		if i.Heap {
 			p.addrClasses(i, out)
 		}
+	case *ssa.Send:
+		out[clChanSent] = true
+		out[clChanN] = true
+	case *ssa.MakeChan:
+		out[clChanSent] = true
+		out[clChanN] = true
+		out[clChanClosed] = true
 	case *ssa.MakeSlice:
 		et := i.Type().Underlying().(*types.Slice).Elem()
 		p.classesOfType(et, "e:"+typeKey(et), out)
@@ -587,6 +594,8 @@ func (p *Program) instrWrites(ins ssa.Instruction) []string {
 		c := i.Common()
 		if b, ok := c.Value.(*ssa.Builtin); ok {
 			switch b.Name() {
+			case "close":
+				out[clChanClosed] = true
 			case "append", "copy":
 				if sl, ok := c.Args[0].Type().Underlying().(*types.Slice); ok {
 					p.classesOfType(sl.Elem(), "e:"+typeKey(sl.Elem()), out)
